@@ -273,6 +273,9 @@ package kcp
 //@   requires kcp.wfR()
 //@   modifies nothing
 //@   ensures result >= 0 - 1
+// (a genuine sender never numbers a fragment 255: Send refuses more than 255 fragments, so frg <= 254;
+// for a forged first segment with frg == 255 the uint8 sum frg+1 wraps to 0 and the test is void)
+//@   ensures @C01 [readable-only-when-every-fragment-is-queued] result >= 0 && kcp.rcv_queue.at(0).frg <= 254 ==> kcp.rcv_queue.rlen() >= kcp.rcv_queue.at(0).frg + 1
 //@   loop 1 invariant length >= 0
 //
 // Field-wise relations between two versions of a segment.
